@@ -413,8 +413,13 @@ class FIXNewOrderSingle:
             #   Let's set order inactive
             self.leaves_qty = 0
 
+        if self.orig_clord_id:
+            # request was rejected: the order is still live under its previous ClOrdID
+            self.clord_id = self.orig_clord_id
+            self.orig_clord_id = None
+
         if new_status is not None:
-            self.status = new_status
+            self.status = FOrdStatus(new_status)
             return True
         else:
             return False
